@@ -30,8 +30,13 @@ def budget(tier):
 
 @st.composite
 def _case(draw):
-    table = draw(progs.tables())
-    scan = draw(progs.scans(table))
+    table = draw(progs.tables(lead_blank=True))
+    if draw(st.integers(0, 3)) == 2:
+        # header-text-safe programs may scan from line 0 (the header row is a data line too)
+        table = progs.text_safe(table, draw)
+        scan = draw(progs.scans(table, from_data=False))
+    else:
+        scan = draw(progs.scans(table))
     prog = draw(progs.programs(table, kinds=("b", "b", "b", "b", "assign", "when", "se", "every", "first")))
     via = draw(st.sampled_from(["collect", "collect", "next"]))
     return {"table": table, "scan": scan, "prog": prog, "via": via}
